@@ -27,7 +27,9 @@ impl MessageBatch {
     }
 
     pub fn exceeded_interval(&self, now: Instant) -> bool {
-        now >= self.last_run + self.config.interval
+        // Compare durations rather than computing `last_run + interval`, which overflows (and
+        // panics) for very large intervals
+        now.saturating_duration_since(self.last_run) >= self.config.interval
     }
 
     pub fn exceeded_batch_size(&self) -> bool {
@@ -41,7 +43,9 @@ impl MessageBatch {
 
 impl From<BatchConfig> for MessageBatch {
     fn from(config: BatchConfig) -> Self {
-        let batch = Vec::with_capacity(config.batch_size as usize);
+        // The batch size is only an upper bound chosen by the user; let the vector grow as
+        // messages arrive instead of reserving (possibly gigabytes) up front
+        let batch = Vec::new();
         let last_run = Instant::now();
 
         Self {
